@@ -249,6 +249,14 @@ SHIFT_PROGS += [
     ("throw-in-if-then-return", "var r;\nfunction f(a) {\n  if (a) {\n       throw new TypeError('t');\n  }\n  return 5;\n}\ntry { f(1); } catch (e) { r = [e.lineNumber, e.columnNumber]; }\nlog(r);", "throw new TypeError"),
     ("toplevel-throw-then-statement", "var r;\ntry {\n   throw new Error('a');\n  r = 0;\n} catch (e) { r = [e.lineNumber, e.columnNumber]; }\nlog(r);", "throw new Error"),
     ("throw-in-loop-body", "var r;\ntry {\n  for (var i = 0; i < 3; i++) {\n    if (i === 1)\n          throw new Error('l');\n    r = i;\n  }\n} catch (e) { r = [e.lineNumber, e.columnNumber]; }\nlog(r);", "throw new Error"),
+    ("finally-on-exception-path-keeps-location", "var r;\ntry {\n  try {\n      undefinedThing.prop;\n  } finally {\n    var a = 1;\n    a = 2;\n  }\n} catch (e) { r = [e.lineNumber, e.columnNumber]; }\nlog(r);", "undefinedThing.prop"),
+    ("finally-after-throw-keeps-location", "var r;\nfunction f() {\n  try {\n        throw new RangeError('loc');\n  } finally {\n    var b = 1;\n    for (var i = 0; i < 2; i++) { b += i; }\n  }\n}\ntry { f(); } catch (e) { r = [e.lineNumber, e.columnNumber]; }\nlog(r);", "throw new RangeError"),
+    ("two-finally-blocks-keep-location", "var r;\ntry {\n  try {\n    try {\n          undefinedThing.prop;\n    } finally {\n      var a = 1;\n    }\n  } finally {\n    var b = 2;\n    b++;\n  }\n} catch (e) { r = [e.lineNumber, e.columnNumber]; }\nlog(r);", "undefinedThing.prop"),
+    ("error-after-callback-body", "var r;\ntry {\n  [1].forEach(function (x) {\n    var y = 1;\n  }),\n      undefinedThing.prop;\n} catch (e) { r = [e.lineNumber, e.columnNumber]; }\nlog(r);", "undefinedThing.prop", "[1].forEach"),
+    ("error-in-do-while-test", "var r;\ntry {\n  do {\n    var y = 1;\n    y++;\n  } while (\n      undefinedThing.prop);\n} catch (e) { r = [e.lineNumber, e.columnNumber]; }\nlog(r);", "undefinedThing.prop", "do {"),
+    ("error-in-for-update", "var r;\ntry {\n  for (var i = 0; i < 2;\n      undefinedThing.prop) {\n    var y = 1;\n  }\n} catch (e) { r = [e.lineNumber, e.columnNumber]; }\nlog(r);", "undefinedThing.prop", "for (var i"),
+    ("error-in-while-test-second-round", "var r; var n = 0;\ntry {\n  while (n++ < 1 ||\n      undefinedThing.prop) {\n    var y = 1;\n  }\n} catch (e) { r = [e.lineNumber, e.columnNumber]; }\nlog(r);", "undefinedThing.prop", "while (n++"),
+    ("error-after-function-expression", "var r;\ntry {\n  var g = function () {\n    return 1;\n  };\n      undefinedThing.prop;\n} catch (e) { r = [e.lineNumber, e.columnNumber]; }\nlog(r);", "undefinedThing.prop"),
     ("rethrow-keeps-or-updates", "var r;\ntry {\n  try {\n    null.x;\n  } catch (e1) {\n        throw e1;\n  }\n} catch (e) { r = [e.lineNumber, e.columnNumber]; }\nlog(r);", "throw e1"),
 ]
 
@@ -361,16 +369,21 @@ def main(ctx):
     for sp in SHIFT_PROGS:
         name, src = sp[0], sp[1]
         marker = sp[2] if len(sp) > 2 else "throw"
+        stmt_marker = sp[3] if len(sp) > 3 else None     # start of the statement the erroring expression belongs to: an accepted location too
         for k in (0, 1, 7, 100):
             shifts.append({"id": h(["shiftl", name, k]), "name": name, "kind": "line", "k": k, "src": "\n" * k + src,
-                           "marker": marker})
+                           "marker": marker, "stmt_marker": stmt_marker})
         lines = src.split("\n")
         ti = [i for i, l in enumerate(lines) if marker in l][0]
         for k in (1, 7, 100):
             l2 = list(lines)
             l2[ti] = " " * k + l2[ti]
+            if stmt_marker:
+                si = [i for i, l in enumerate(lines) if stmt_marker in l][0]
+                if si != ti:
+                    l2[si] = " " * k + l2[si]
             shifts.append({"id": h(["shiftc", name, k]), "name": name, "kind": "col", "k": k, "src": "\n".join(l2),
-                           "marker": marker})
+                           "marker": marker, "stmt_marker": stmt_marker})
     lrng = random.Random(ctx.seed * 13 + 5)
     lochist = []
     for i in range(150 if ctx.quick else 2500):
@@ -462,10 +475,14 @@ def main(ctx):
         src_lines = c["src"].split("\n")
         tl = [i for i, l in enumerate(src_lines) if c["marker"] in l][0]
         want = [tl + 1, src_lines[tl].index(c["marker"]) + 1]
+        wants = [want]
+        if c.get("stmt_marker"):
+            sl = [i for i, l in enumerate(src_lines) if c["stmt_marker"] in l][0]
+            wants.append([sl + 1, src_lines[sl].index(c["stmt_marker"]) + 1])
         if not b or None in b:
             prob = "base location is not numeric: %r" % (b,)
-        elif loc and loc != want:
-            prob = "location %r is not the throw statement's position %r" % (loc, want)
+        elif loc and loc not in wants:
+            prob = "location %r is neither the erroring expression's nor its statement's position %r" % (loc, wants)
         elif not loc or None in loc:
             prob = "shifted location is not numeric: %r" % (loc,)
         elif c["kind"] == "line" and (loc[0] != b[0] + c["k"] or loc[1] != b[1]):
